@@ -146,3 +146,26 @@ def plane_clearance(gtype, size, gpos, gquat, xpos, xrot):
 
 def geom_world_pos(gpos, xpos, xrot):
   return xpos + quat_rot_np(xrot, gpos)
+
+
+def lowest_point(gtype, size, gpos, gquat, xpos, xrot):
+  """World coordinates of the lowest material point of a primitive (single
+  pose, numpy)."""
+  wpos = xpos + quat_rot_np(xrot, gpos)
+  wq = quat_mul_np(xrot, gquat)
+  R = quat_to_mat_np(wq)
+  down = np.array([0.0, 0.0, -1.0])
+  if gtype == 'sphere':
+    return wpos + size[0] * down
+  if gtype == 'capsule':
+    axis = R[:, 2]
+    cap = wpos - np.sign(axis[2] if axis[2] != 0 else 1.0) * size[1] * axis
+    return cap + size[0] * down
+  sg = -np.sign(R[2, :])
+  sg[sg == 0] = 1.0
+  return wpos + R @ (sg * np.asarray(size))
+
+
+def to_local(xpos, xrot, pw):
+  qinv = xrot * np.array([1.0, -1.0, -1.0, -1.0])
+  return quat_rot_np(qinv, pw - xpos)
